@@ -309,6 +309,9 @@ func (s *scene) forge(a act, rng *rand.Rand, off int) (data []byte, from *world.
 		d := withAppendix(s.fb, s.ownRecord(s.fb, chainB[0].att.NextAttachment, rng))
 		s.forceDelay, s.forceLabelDelta = 0, 0
 		return d, from, "newer announcement, forwarder's record: delay 3 ms, forward label +1 (earlier: 1 ms)"
+	case "wraptwice":
+		inner := s.ownRecord(fa, chain[0].att.NextAttachment, rng)
+		return withAppendix(fa, s.ownRecord(fa, inner, rng)), from, "the forwarder attached two records of its own"
 	case "skipto":
 		return withAppendix(fa, s.ownRecord(fa, chain[a.Depth-1].raw, rng)), from, ""
 	case "innerflip":
@@ -480,7 +483,7 @@ func runCase(c *vf.Ctx, L int, a act, rng *rand.Rand, off int) (result, string, 
 			if s.produced[string(rc.raw)] {
 				continue
 			}
-			if i == 0 && rc.att.Router.IP == from.ID.IP {
+			if (i == 0 || (i == 1 && a.Op == "wraptwice")) && rc.att.Router.IP == from.ID.IP {
 				continue
 			}
 			r.Genuine = false
@@ -625,7 +628,7 @@ func run(c *vf.Ctx) {
 	// ---- T: campaigns on longer chains ----
 	maxL := c.Pick(6, 20)
 	ops := []string{"none", "transit", "mutbody", "mutsig", "wrongpeer", "replayold", "outerflip", "outersigflip", "stripouter",
-		"innerflip", "innersigflip", "splicetime", "spliceorigin", "reattribute", "forgeknown", "duprec", "reorder", "skipto", "claimdirect"}
+		"innerflip", "innersigflip", "splicetime", "spliceorigin", "reattribute", "forgeknown", "duprec", "reorder", "skipto", "claimdirect", "wraptwice"}
 	for k := 0; k < c.Pick(60, 600); k++ {
 		L := rng.Intn(maxL + 1)
 		op := ops[rng.Intn(len(ops))]
